@@ -498,7 +498,7 @@ func genUnitThrottleEdge(r *hx.RNG, k int) []string {
 		ta, tb = a2, a2+r.Range(3, 120)
 	}
 	if k%4 == 0 { // the only throttle
-		toks = []string{toks[0], fmt.Sprintf("T:%s:%d", hx.HexS(fmt.Sprintf("%d-%d", a2, b2)), bw2)}
+		toks = []string{toks[0], toks[1], fmt.Sprintf("T:%s:%d", hx.HexS(fmt.Sprintf("%d-%d", a2, b2)), bw2)}
 		ta, tb = a2, b2
 	}
 	rs := []int{ta, ta + 1 + r.Intn(tb-ta-1), tb - 1, tb, tb + 1, ta - 1}[(k/3)%6]
